@@ -1,6 +1,49 @@
-"""C07 — see checks/srv_common.py and DESIGN.md section 6"""
+"""C07 — see checks/srv_common.py and DESIGN.md section 6 (threadless server: model + differential); plus, on the
+THREADED server (harness/locks_dyn.c mode `acct`, PRNG scheduler with preemption at lock operations), the model-free
+oracle "no I-format APDU is written on a connection that is not started", judged from the server's own raw-message
+and connection-event callbacks (public API)."""
+import os, re
+from vlib.core import *
 from checks import srv_common
 
 
+def threaded_state(res):
+    bdir = os.path.join(BUILD, "C07")
+    lib = build_lib()
+    exe = build_harness("locks_dyn", ["locks_dyn.c", "simhal.c"], lib, bdir, exclude=set(REAL_HAL))
+    # the recorded race needs a particular interleaving: look at a few schedules (seed, then fixed ones) until it shows
+    seeds = [seed(), 2, 3, 5] if res.tier == "quick" else [seed() + i for i in range(4)] + list(range(2, 14))
+    tot, race_shown = {}, False
+    for n, sd in enumerate(seeds):
+        if res.tier == "quick" and n >= 1 and race_shown:
+            break
+        trace = os.path.join(bdir, "state_trace_%d.txt" % sd)
+        rc, out = sh([exe, "acct" if res.tier == "quick" else "acct-thorough", trace], env={"VERIF_SEED": str(sd)}, timeout=3000)
+        if rc != 0:
+            res.violation("crash-threaded-state", "sanitizer abort in the threaded scenarios (seed %d)" % sd, {"sanitizer": out[-1500:], "how": "VERIF_SEED=%d %s acct" % (sd, exe)})
+            continue
+        for l in out.splitlines():
+            if l.startswith("STATE_FAIL ") or l.startswith("STATE_RACE "):
+                os.makedirs(os.path.join(ROOT, "replays"), exist_ok=True)
+                rp = os.path.join(ROOT, "replays", "C07-threaded-trace-seed%d.txt" % sd)
+                try:
+                    open(rp, "w").write(open(trace).read()[-200000:])
+                except OSError:
+                    rp = None
+                key = "threaded-iframe-while-not-started" if l.startswith("STATE_FAIL") else "threaded-iframe-after-outside-deactivation"
+                race_shown = race_shown or l.startswith("STATE_RACE")
+                res.violation(key, "threaded server: " + l.split(" ", 1)[1][:600],
+                              {"failing_history": rp, "how": "VERIF_SEED=%d %s acct   (scheduler and operations are derived from the seed)" % (sd, exe), "what": l})
+            if l.startswith("ACCT "):
+                for k, v in re.findall(r"(\w+)=(\d+)", l):
+                    tot[k] = tot.get(k, 0) + int(v)
+    res.cov["threaded_state_oracle"] = tot
+    res.assumptions.append("threaded server: the rule 'I-format APDUs only on a started connection' is checked by the model-free oracle of harness/locks_dyn.c (mode acct) under a PRNG scheduler, not modelled in Lean")
+
+
 def run(res):
+    try:
+        threaded_state(res)
+    except BuildError as e:
+        res.violation("tie-or-proof-broken", "threaded state harness does not build: " + str(e)[-400:], {"no_longer_checks": ["harness/locks_dyn.c"]}, found_input=False)
     return srv_common.run(res, "C07")
